@@ -29,6 +29,8 @@ SCRIPTS = {
     # a data peer that stays connected but does not read (with the lock-step window the server's first block stays unsent)
     "retr-noread": ["EPSV", "@data", "@dstop", "RETR d/f"],
     "list-noread": ["PASV", "@data", "@dstop", "LIST"],
+    # the session changes user in the middle
+    "relogin": ["USER bob", "PASS pw", "PWD", "USER anonymous", "PWD"],
 }
 
 TRANSFER_SCRIPTS = ["list", "mlsd", "retr", "stor", "appe", "rest-retr", "rest-stor"]
